@@ -279,18 +279,24 @@ def run(ctx):
                     for x, t in F.items():
                         if R:
                             if ran.count(x) < 1:
-                                ctx.fail('MultiChain.force(recompute=True) did not recompute a task downstream of the named one in some member chain', full_case, {**probe, 'not_run': t.fullname})
+                                ctx.fail('MultiChain.force(recompute=True) did not recompute a task downstream of the named one in some member chain', full_case, {**probe, 'not_run': t.fullname},
+                                         known='K6' if k6_class(standalone) else None)
                             elif t._data is None or (persisting(t) and not t.has_data):
                                 ctx.fail('a task recomputed through MultiChain.force has no result afterwards', full_case, {**probe, 'task': t.fullname})
                         else:
                             if not t.is_forced:
-                                ctx.fail('MultiChain.force did not mark a task downstream of the named one in some member chain', full_case, {**probe, 'task': t.fullname})
+                                ctx.fail('MultiChain.force did not mark a task downstream of the named one in some member chain', full_case, {**probe, 'task': t.fullname},
+                                         known='K6' if k6_class(standalone) else None)
                             if D and persisting(t) and t.has_data:
                                 ctx.fail('MultiChain.force(delete_data=True) left the stored result of a forced task', full_case, {**probe, 'task': t.fullname})
                             if not D and persisting(t) and not t.has_data:
                                 ctx.fail('MultiChain.force without delete_data removed a stored result', full_case, {**probe, 'task': t.fullname})
                     for x in set(ran) - set(F):
-                        ctx.fail('MultiChain.force ran a task that is not downstream of the named one', full_case, {**probe, 'ran': [t.fullname for ch in chains for t in ch.tasks.values() if id(t) == x][:1]})
+                        # (K6, silent variant: a shared object lost an optional input in its input table while the graph of the chain that
+                        #  created it still has the edge — the closure computed from the tables and the one `force` uses disagree)
+                        ctx.fail('MultiChain.force ran a task that is not downstream of the named one', full_case,
+                                 {**probe, 'ran': [t.fullname for ch in chains for t in ch.tasks.values() if id(t) == x][:1]},
+                                 known='K6' if k6_class(standalone) else None)
             except (KeyError, ValueError):
                 ctx.count('probe-skipped:ambiguous-name')
         # ---- correspondence with the store machine: values everywhere, MultiChain.force (as Chain.force on each member, theorem
@@ -363,6 +369,7 @@ def run(ctx):
                 ctx.diverge('multichain:force-history', case_, {'op_index': k, 'impl': a}, {'model': m_}); break
     name_mode_same_file_name(ctx, root)
     member_names_probe(ctx, root)
+    name_mode_nested_probe(ctx, root)
     # the recorded K6 witness
     k6_witness(ctx, root)
 
@@ -404,6 +411,39 @@ def name_mode_same_file_name(ctx, root):
                 ctx.fail('a member chain of a name-mode MultiChain has other parameter values than the standalone chain of its config', case,
                          {'member': m, 'member_chain': a, 'standalone': s_})
                 break
+        b.cleanup_module()
+
+
+def name_mode_nested_probe(ctx, root):
+    """name mode: ONE config file mounted under a nested namespace in one member (`a::c`) and under other namespaces in the others (`c`, `m::k::c`,
+    none): the registry key is the file without ANY namespace, so the members share its task objects — compared with `BuildNM.buildMulti`"""
+    from taskchain import MultiChain
+    for k in range(ctx.n(6, 40)):
+        rng = ctx.rng('nm-nested', k)
+        nss = rng.sample(['a::c', 'c', 'm::k::c', None, 'a::b::c', 'z'], 3)
+        spec = {'classes': {'K0': {'name': 'common', 'group': rng.choice(['', 'g']), 'params': [{'name': 'x'}], 'inputs': [], 'kind': 'json', 'run_args': ['x']}},
+                'files': {'p.json': {'tasks': ['K0'], 'x': k}}, 'main': 'm0.json', 'module': gen.fresh_modname()}
+        mains = []
+        for j, ns in enumerate(nss):
+            spec['files'][f'm{j}.json'] = {'uses': ['@cfg/p.json' + (f' as {ns}' if ns else '')]}
+            mains.append(f'm{j}.json')
+        b = pl.materialize(spec, root / f'nmn{k}', modname=spec['module'])
+        b.module()
+        case = {'probe': 'name mode, one file under nested and shallow namespaces', 'namespaces': nss}
+        ctx.case(case, nontrivial=True); ctx.count('name-mode-nested-probe')
+        try:
+            mc = MultiChain([pl.make_config(b, root / f'nmnd{k}', main=m) for m in mains], parameter_mode=False)
+        except Exception as e:      # noqa
+            ctx.fail('a name-mode MultiChain over one file under several namespaces could not be built', case, f'{type(e).__name__}: {e}'[:200])
+            b.cleanup_module(); continue
+        objs = [id(t) for m in mains for t in mc[pl.make_config(b, root / f'nmnd{k}', main=m).name].tasks.values()]
+        mo = ctx.model.one({**builder.encode(spec, b, mains=[(m, None) for m in mains]), 'op': 'multi_nm'})
+        model_objs = [t['obj'] for ch in mo.get('ok', []) for t in ch]
+        if 'ok' not in mo or len(set(objs)) != len(set(model_objs)):
+            ctx.diverge('multichain-name-mode:nested-namespaces', case, {'distinct_objects': len(set(objs))}, mo if 'ok' not in mo else {'distinct_objects': len(set(model_objs))})
+        if len(set(objs)) != 1:
+            ctx.fail('two tasks that are the same computation are distinct objects across the member chains', case,
+                     {'mode': 'name', 'distinct_objects': len(set(objs)), 'members': len(mains)})
         b.cleanup_module()
 
 
